@@ -851,3 +851,12 @@ fire("C07", "weight callable receives the index table without its last entry", "
      ("sub", "molgrid.py", "            self._aim_weights = aim_weights(self._points, self._atcoords, atnums, self._indices)\n", "            self._aim_weights = aim_weights(self._points, self._atcoords, atnums, self._indices[:-1])\n"))
 silent("C07", "base class initialised with a named weight product",
        ("sub", "molgrid.py", "        super().__init__(self.points, self._atweights * self._aim_weights)\n", "        total_weights = self._aim_weights * self._atweights\n        super().__init__(self.points, total_weights)\n"))
+
+# ------------------------------------------------------------------------------------------ C17 S2
+fire("C17", "p primitives evaluated with the exponents of the s primitives", "S2.superposition-evaluated/coulomb.coulomb_potential/p-family",
+     ("sub", "coulomb.py", "        for c, alpha, center in zip(coeffs_p, alphas_p, centers_p):\n", "        for c, alpha, center in zip(coeffs_p, alphas_s, centers_p):\n"))
+fire("C17", "normalisation flag not handed to the s primitives", "S2.superposition-evaluated/coulomb.coulomb_potential",
+     ("sub", "coulomb.py", "        V += c * coulomb_gaussian_s(r, alpha, normalized=normalized)\n", "        V += c * coulomb_gaussian_s(r, alpha)\n"))
+silent("C17", "s primitives accumulated through an index loop",
+       ("sub", "coulomb.py", "    for c, alpha, center in zip(coeffs_s, alphas_s, centers_s):\n        r = np.linalg.norm(points - center, axis=-1)\n        V += c * coulomb_gaussian_s(r, alpha, normalized=normalized)\n",
+        "    for k in range(len(coeffs_s)):\n        r = np.linalg.norm(points - centers_s[k], axis=-1)\n        V = V + coeffs_s[k] * coulomb_gaussian_s(r, alphas_s[k], normalized=normalized)\n"))
